@@ -684,6 +684,12 @@ func (e *Enc) builtin(fr *Frame, b *ssa.Builtin, c *ssa.CallCommon, args []Val, 
 		if fr.recovered != "" {
 			return Val{T: fr.recovered, Typ: resType}, st, rb
 		}
+		if fr == fr.top {
+			// the function under verification calls recover itself: it is a deferred function, verified
+			// for both ways it can be entered (normal return of the deferring function: nil; panic: the
+			// panic value, which is anything)
+			return e.freshVal("recovered", resType), st, rb
+		}
 		return Val{T: "nil_iface", Typ: resType}, st, rb
 	case "print", "println":
 		return Val{Typ: types.NewTuple()}, st, rb
